@@ -16,8 +16,8 @@ truncation is the same function in both runs and cancels) with one Richardson st
 Conventions (derived, and verified at the start of every shard on pure jnp/tf functions):
   JAX: for f: C -> R, z = x + i y, jax.grad(f)(z) = df/dx - i df/dy  (= 2 df/dz; for f = |z|^2 it
        returns 2 conj(z)).  Hence  df/dRe(A_ij) = Re g_ij  and  df/dIm(A_ij) = -Im g_ij.
-       For a holomorphic p, the VJP is ct * p'(z) without conjugation, so jax.grad(Re p) = p',
-       jax.grad(Im p) = -i p'... (checked numerically: see `convention_selfcheck`).
+       For a holomorphic p the VJP is ct * p'(z) without conjugation, so jax.grad(Re p) = p' and
+       jax.grad(Im p) = -i p' (convention checked numerically: see `convention_selfcheck_jax`).
   TF : tape.gradient of a real f w.r.t. complex z returns df/dx + i df/dy (2 z for |z|^2); all
        parameters differentiated here are real float64, so only the real convention is used.
 
@@ -71,6 +71,7 @@ WATCHDOG = {"quick": 1500, "thorough": 5400}
 
 H1, H2, H3 = 1e-3, 5e-4, 2.5e-4
 REL = 1e-6
+VALUE_TOL = 1e-8  # forward values, float64, quantities of order one (the bound C09 uses)
 EPS = float(np.finfo(np.float64).eps)
 
 GATE_PARAMS = {
@@ -85,7 +86,7 @@ class Ctx:
         self.violations = []
         self.c = {k: 0 for k in REQUIRED}
         self.c.update({"max_dev_over_tol": 0.0, "max_abs_dev": 0.0, "by_backend": {}, "by_gate_param": {}, "by_output": {}, "circuits": 0,
-                       "oracle_refinements": 0, "unsupported": {}, "backend_raises": 0, "max_dev_over_tol_by_backend": {}})
+                       "oracle_refinements": 0, "unsupported": {}, "backend_raises": 0})
         self.classes = set()
         self.samples = []
         self.obs = set()
@@ -356,7 +357,10 @@ def param_labels(doc):
 
 
 def make_sim(pq, doc, connector):
-    return pq.PureFockSimulator(d=doc["d"], config=pq.Config(cutoff=doc["cutoff"]), connector=connector)
+    # validate=False for GaussianTransform circuits: GaussianTransform._validate calls `.conj()` on the blocks, which eager
+    # TensorFlow tensors do not have (AttributeError before any derivative exists); recorded as an observation
+    cfg = pq.Config(cutoff=doc["cutoff"], validate=bool(doc.get("validate", True)))
+    return pq.PureFockSimulator(d=doc["d"], config=cfg, connector=connector)
 
 
 # =========================================================================== oracle
@@ -449,8 +453,7 @@ def compare_jacobian(ctx, path, J_ad, J_fd, F, f_np, x0, plabels, olabels, case,
         ratio = float(np.max(dev[ok] / tol[ok]))
         ctx.c["max_dev_over_tol"] = max(ctx.c["max_dev_over_tol"], ratio)
         ctx.c["max_abs_dev"] = max(ctx.c["max_abs_dev"], float(np.max(dev[ok])))
-        t = ctx.c["max_dev_over_tol_by_backend"]
-        t["max_" + path] = max(t.get("max_" + path, 0.0), ratio)
+        ctx.c["max_dev_over_tol__" + path] = max(ctx.c.get("max_dev_over_tol__" + path, 0.0), ratio)
     nbad = int(bad.sum())
     if nbad:
         seen = set()
@@ -495,9 +498,10 @@ def tf_run(pq, doc, mode, connectors):
                 xs = [v[i] for i in range(n)]
                 st = make_sim(pq, doc, conn).execute(build_program(pq, lib, xs, doc)).state
                 outs = [tf.cast(o, tf.float64) for o in read_outputs(lib, st, doc)]
-            return tf.stack([tape.gradient(o, v, unconnected_gradients=zero) for o in outs])
+            return tf.stack([tape.gradient(o, v, unconnected_gradients=zero) for o in outs]), tf.stack(outs)
 
-        return np.asarray(whole(v))
+        J, vals = whole(v)
+        return np.asarray(J), np.asarray(vals)
     conn = connectors["function" if mode.startswith("function") else "eager"]
     with tf.GradientTape(persistent=True) as tape:
         xs = [v[i] for i in range(n)]
@@ -505,9 +509,10 @@ def tf_run(pq, doc, mode, connectors):
         outs = read_outputs(lib, st, doc)
         if mode.endswith("jacobian"):
             stacked = tf.stack([tf.cast(o, tf.float64) for o in outs])
+    vals = np.array([float(np.real(np.asarray(o))) for o in outs])
     if mode.endswith("jacobian"):
-        return np.asarray(tape.jacobian(stacked, v, unconnected_gradients=zero))
-    return np.array([np.asarray(tape.gradient(o, v, unconnected_gradients=zero)) for o in outs])
+        return np.asarray(tape.jacobian(stacked, v, unconnected_gradients=zero)), vals
+    return np.array([np.asarray(tape.gradient(o, v, unconnected_gradients=zero)) for o in outs]), vals
 
 
 # =========================================================================== JAX backends
@@ -556,17 +561,18 @@ def jax_run(pq, doc, mode, rows=None):
     jnp = jax.numpy
     f = jax_function(pq, doc)
     x0 = jnp.asarray(np.asarray(doc["x0"], dtype=np.float64))
+    vals = np.asarray(f(x0))
     if mode == "jacrev":
-        return np.asarray(jax.jacrev(f)(x0))
+        return np.asarray(jax.jacrev(f)(x0)), vals
     if mode == "jacfwd":
-        return np.asarray(jax.jacfwd(f)(x0))
+        return np.asarray(jax.jacfwd(f)(x0)), vals
     out = []
     for k in rows:
         g = jax.grad(lambda x, k=k: f(x)[k])
         if mode == "jit-grad":
             g = jax.jit(g)
         out.append(np.asarray(g(x0)))
-    return np.array(out)
+    return np.array(out), vals
 
 
 # =========================================================================== circuit generator
@@ -612,7 +618,10 @@ def gen_gate(rng, x, t, d, variable=0.75):
     if t == "GaussianTransform":
         n = int(rng.integers(1, min(d, 2) + 1))
         m = [int(v) for v in rng.choice(d, size=n, replace=False)]
-        U1, U2 = M.haar_unitary(rng, n), M.haar_unitary(rng, n)
+        if rng.random() < 0.5:
+            U1, U2 = M.haar_unitary(rng, n), M.haar_unitary(rng, n)
+        else:  # real blocks
+            U1, U2 = M.haar_orthogonal(rng, n).astype(complex), M.haar_orthogonal(rng, n).astype(complex)
         while True:
             rs = rng.uniform(0.1, 0.6, size=n)
             if n == 1 or abs(rs[0] - rs[1]) > 0.15:
@@ -721,7 +730,7 @@ def gen_circuit(rng, pq, flavour, dc=None, max_params=10):
             gates.insert(int(rng.integers(0, len(gates) + 1)), {"t": "BatchApply", "subs": subs})
         if 1 <= len(x) <= max_params:
             break
-    doc = {"d": d, "cutoff": cutoff, "prep": prep, "gates": gates, "x0": x, "flavour": flavour}
+    doc = {"d": d, "cutoff": cutoff, "prep": prep, "gates": gates, "x0": x, "flavour": flavour, "validate": flavour != "gaussian"}
     return gen_outputs(rng, pq, doc)
 
 
@@ -750,6 +759,7 @@ def run_circuit_case(ctx, pq, doc, paths, connectors=None):
     f_np = numpy_function(pq, doc)
     x0 = np.asarray(doc["x0"], dtype=float)
     J_fd, F = fd_jacobian(f_np, x0)
+    f0 = f_np(x0)
     if not np.all(np.isfinite(J_fd)):
         raise RuntimeError("non-finite finite-difference oracle: %r" % doc)
     plabels, olabels = param_labels(doc), output_labels(doc)
@@ -764,13 +774,12 @@ def run_circuit_case(ctx, pq, doc, paths, connectors=None):
         ctx.evals += 1
         try:
             if backend == "tf":
-                J = tf_run(pq, doc, mode, connectors)
+                J, vals = tf_run(pq, doc, mode, connectors)
             else:
-                J = jax_run(pq, doc, mode, rows)
+                J, vals = jax_run(pq, doc, mode, rows)
         except Exception as e:  # the call under test
             name = type(e).__name__
-            special = doc["flavour"] in ("gaussian", "batch")
-            if name in UNSUPPORTED_OK or (special and backend == "jax" and doc["flavour"] == "batch"):
+            if name in UNSUPPORTED_OK:
                 ctx.bump("unsupported", "%s:%s:%s" % (path, doc["flavour"], name))
                 ctx.obs.add("%s on a %s circuit is not supported: %s: %s" % (path, doc["flavour"], name, str(e)[:160]))
                 continue
@@ -781,6 +790,16 @@ def run_circuit_case(ctx, pq, doc, paths, connectors=None):
             where = next(("%s:%s" % (fr.filename.split("piquasso/")[-1], fr.name) for fr in reversed(tb) if "/piquasso/" in fr.filename), "?")
             ctx.viol("grad-raises:%s:%s:%s" % (path, name, where), "%s raised %s: %s (flavour %s, gates %s)" % (
                 path, name, str(e)[:300], doc["flavour"], [g["t"] for g in doc["gates"]]), case)
+            continue
+        # the derivative of a *different* function is not a derivative defect: when the connector's forward values already
+        # differ from the NumPy simulation (C09's subject) the case is classified as such and no Jacobian is compared
+        vdev = float(np.max(np.abs(np.asarray(vals, dtype=float) - f0))) if np.asarray(vals).shape == f0.shape else float("inf")
+        if not (vdev <= VALUE_TOL):
+            ctx.c["forward_value_mismatches"] = ctx.c.get("forward_value_mismatches", 0) + 1
+            what = "GaussianTransform" if doc["flavour"] == "gaussian" else "circuit"
+            ctx.viol("forward-value-differs:%s:%s" % (backend, what),
+                     "%s: forward outputs differ from the NumPy simulation by %.3e (> %.0e) before any differentiation; gates %s" % (
+                         path, vdev, VALUE_TOL, [g["t"] for g in doc["gates"]]), case)
             continue
         Jf = J_fd[rows]
         ol = [olabels[r] for r in rows]
@@ -834,6 +853,17 @@ def convention_selfcheck_tf(ctx):
     ctx.c["convention_selfchecks"] += 1
 
 
+def probe_gaussian_validation(ctx, pq, tf):
+    """Observation only: GaussianTransform with eager tensor blocks and the default validate=True."""
+    try:
+        prog = pq.Program(instructions=[pq.Vacuum(), pq.GaussianTransform(
+            passive=tf.constant(np.array([[np.cosh(0.3) + 0j]])), active=tf.constant(np.array([[np.sinh(0.3) + 0j]]))).on_modes(0)])
+        pq.PureFockSimulator(d=1, config=pq.Config(cutoff=4), connector=pq.TensorflowConnector()).execute(prog)
+    except Exception as e:
+        ctx.obs.add("GaussianTransform with eager TensorFlow tensor blocks and validate=True raises %s: %s (circuits with "
+                    "GaussianTransform therefore run with Config(validate=False))" % (type(e).__name__, str(e)[:100]))
+
+
 def shard_circuits(ctx, spec, pq, rng):
     backend = spec["backend"]
     t0 = time.time()
@@ -843,13 +873,17 @@ def shard_circuits(ctx, spec, pq, rng):
         tf = get_tf()
         convention_selfcheck_tf(ctx)
         connectors = {"eager": pq.TensorflowConnector(), "function": pq.TensorflowConnector(decorate_with=tf.function)}
+        if "gaussian" in spec["flavours"]:
+            probe_gaussian_validation(ctx, pq, tf)
     else:
         convention_selfcheck_jax(ctx)
     t_start = time.time()
     flavours = spec["flavours"]
     dc = [tuple(v) for v in spec["dc"]] if spec.get("dc") else None
     for it in range(int(spec["count"])):
-        if time.time() - t_start > budget:
+        # count cap and time budget; a floor keeps a slow (shared) machine from emptying the workload -- the watchdog is the
+        # only hard limit and wall-clock never decides a verdict
+        if time.time() - t_start > budget and it >= int(spec.get("min_count", 0)):
             ctx.obs.add("shard %s stopped by its time budget after %d circuits" % (spec["name"], it))
             break
         flavour = flavours[it % len(flavours)]
@@ -970,8 +1004,7 @@ def perm_compare(ctx, label, g, A, rows, cols, fname, case, counter_keys, cls):
         if ok.any():
             ctx.c["max_dev_over_tol"] = max(ctx.c["max_dev_over_tol"], float(np.max(dev[ok] / tol[ok])))
             ctx.c["max_abs_dev"] = max(ctx.c["max_abs_dev"], float(np.max(dev[ok])))
-            t = ctx.c["max_dev_over_tol_by_backend"]
-            t["max_" + label] = max(t.get("max_" + label, 0.0), float(np.max(dev[ok] / tol[ok])))
+            ctx.c["max_dev_over_tol__" + label] = max(ctx.c.get("max_dev_over_tol__" + label, 0.0), float(np.max(dev[ok] / tol[ok])))
         if bad.any() and worst is None:
             i, j = [int(v[0]) for v in np.nonzero(bad)]
             worst = (name, i, j, got[i, j], ref[i, j], dev[i, j], tol[i, j], int(bad.sum()))
@@ -1200,7 +1233,7 @@ def shard_perm(ctx, spec, pq, rng):
     budget = float(spec["budget"])
     fnames = ["re", "im", "abs2"]
     for it in range(int(spec["count"])):
-        if time.time() - t0 > budget:
+        if time.time() - t0 > budget and it >= int(spec.get("min_count", 0)):
             ctx.obs.add("shard %s stopped by its time budget after %d inputs" % (spec["name"], it))
             break
         A, rows, cols, kind = gen_perm_input(rng)
@@ -1214,13 +1247,13 @@ def shard_perm(ctx, spec, pq, rng):
             ctx.samples.append({"perm": {"n": int(A.shape[0]), "rows": rows.tolist(), "cols": cols.tolist(), "kind": kind}})
     for rep in range(int(spec.get("batch_reps", 1))):
         for B in (1, 2, 5, 16):
-            if time.time() - t0 > 2 * budget:
+            if time.time() - t0 > 2 * budget and rep >= 1:
                 ctx.obs.add("batched permanent workload stopped by the time budget")
                 break
             perm_vmap(ctx, rng, B, fnames[(rep + B) % 3], share_mult=(rep + B) % 2 == 0)
             perm_batched_backward(ctx, rng, B)
     for it in range(int(spec.get("passive", 0))):
-        if time.time() - t0 > 3 * budget:
+        if time.time() - t0 > 3 * budget and it >= 3:
             break
         pdoc = gen_passive_doc(rng)
         if pdoc is not None:
@@ -1239,7 +1272,7 @@ PERM_ENV = {"OPENBLAS_NUM_THREADS": "1", "OMP_NUM_THREADS": "4", "NUMBA_NUM_THRE
 
 def plan(tier, seed):
     q = tier == "quick"
-    b = 1.0 if q else 7.0
+    b = 1.0 if q else 5.0
     specs = []
 
     def add(name, **kw):
@@ -1248,26 +1281,26 @@ def plan(tier, seed):
 
     # TensorFlow, eager custom-gradient path
     add("tf-eager-0", kind="circuits", backend="tf", modes=["eager-gradient", "eager-jacobian"], flavours=["plain", "interferometer", "plain", "batch"],
-        count=int(40 * b), budget=75 * b, env=TF_ENV, weight=3)
+        count=int(40 * b), min_count=10, budget=75 * b, env=TF_ENV, weight=3)
     add("tf-eager-1", kind="circuits", backend="tf", modes=["eager-gradient", "eager-jacobian"], flavours=["batch", "plain", "interferometer", "gaussian"],
-        count=int(40 * b), budget=75 * b, env=TF_ENV, weight=3)
+        count=int(40 * b), min_count=10, budget=75 * b, env=TF_ENV, weight=3)
     # TensorFlow, graph path (each new (d, cutoff, modes) retraces: few shapes per shard)
     add("tf-function-0", kind="circuits", backend="tf", modes=["function-gradient", "function-jacobian"], rotate_modes=True,
-        flavours=["plain", "interferometer", "batch"], dc=[[1, 6], [2, 5]], count=int(14 * b), budget=80 * b, env=TF_ENV, weight=3, max_params=7)
+        flavours=["plain", "interferometer", "batch"], dc=[[1, 6], [2, 5]], count=int(14 * b), min_count=5, budget=80 * b, env=TF_ENV, weight=3, max_params=7)
     add("tf-function-1", kind="circuits", backend="tf", modes=["function-gradient", "outer-function", "function-jacobian"], rotate_modes=True,
-        flavours=["plain", "batch", "interferometer"], dc=[[2, 4], [3, 4]], count=int(14 * b), budget=80 * b, env=TF_ENV, weight=3, max_params=7)
+        flavours=["plain", "batch", "interferometer"], dc=[[2, 4], [3, 4]], count=int(14 * b), min_count=5, budget=80 * b, env=TF_ENV, weight=3, max_params=7)
     # JAX (eager JAX compiles one kernel per primitive and shape: two (d, cutoff) pairs per shard)
     add("jax-grad-0", kind="circuits", backend="jax", modes=["grad"], flavours=["plain", "interferometer", "plain", "gaussian"],
-        dc=[[1, 6], [2, 5]], count=int(30 * b), budget=80 * b, env=JAX_ENV)
+        dc=[[1, 6], [2, 5]], count=int(30 * b), min_count=4, budget=80 * b, env=JAX_ENV)
     add("jax-grad-1", kind="circuits", backend="jax", modes=["grad"], flavours=["interferometer", "plain", "batch", "plain"],
-        dc=[[2, 4], [3, 4]], count=int(30 * b), budget=80 * b, env=JAX_ENV)
-    add("jax-jacobian", kind="circuits", backend="jax", modes=["jacrev", "jacfwd"], flavours=["plain", "interferometer", "gaussian", "batch"],
-        dc=[[2, 6], [1, 7]], count=int(30 * b), budget=80 * b, env=JAX_ENV)
-    add("jax-jit", kind="circuits", backend="jax", modes=["jit-grad"], flavours=["plain", "interferometer", "plain", "gaussian"],
-        dc=[[2, 5], [3, 5], [1, 7]], count=int(14 * b), budget=85 * b, env=JAX_ENV, max_params=7)
+        dc=[[2, 4], [3, 4]], count=int(30 * b), min_count=4, budget=80 * b, env=JAX_ENV)
+    add("jax-jacobian", kind="circuits", backend="jax", modes=["jacrev", "jacfwd"], flavours=["plain", "interferometer", "batch", "plain"],
+        dc=[[2, 6], [1, 7]], count=int(30 * b), min_count=4, budget=80 * b, env=JAX_ENV)
+    add("jax-jit", kind="circuits", backend="jax", modes=["jit-grad"], flavours=["plain", "interferometer", "plain", "batch"],
+        dc=[[2, 5], [3, 5], [1, 7]], count=int(14 * b), min_count=4, budget=85 * b, env=JAX_ENV, max_params=7)
     # permanent
-    add("perm-0", kind="perm", count=int(60 * b), budget=45 * b, batch_reps=int(2 * b), passive=int(6 * b), env=PERM_ENV)
-    add("perm-1", kind="perm", count=int(60 * b), budget=45 * b, batch_reps=int(2 * b), passive=int(6 * b), env=PERM_ENV)
+    add("perm-0", kind="perm", count=int(60 * b), min_count=15, budget=45 * b, batch_reps=int(2 * b), passive=int(6 * b), env=PERM_ENV)
+    add("perm-1", kind="perm", count=int(60 * b), min_count=15, budget=45 * b, batch_reps=int(2 * b), passive=int(6 * b), env=PERM_ENV)
     if not q:
         add("tf-eager-2", kind="circuits", backend="tf", modes=["eager-gradient", "eager-jacobian"], flavours=["interferometer", "gaussian", "batch", "plain"],
             count=int(40 * b), budget=75 * b, env=TF_ENV, weight=3)
